@@ -129,6 +129,22 @@ impl PartitionStorage for FilePartitionStorage {
                 tokio::fs::remove_file(&time_index_path).await.unwrap();
             }
 
+            // After an unclean shutdown the log may end in a partially written batch and the
+            // index may be behind or ahead of the log: bring the two back in line before the
+            // sizes of both files are trusted.
+            let index_rebuilder =
+                IndexRebuilder::new(log_path.clone(), index_path.clone(), start_offset);
+            match index_rebuilder.recover().await {
+                Ok(true) => warn!(
+                    "Log {log_path} and index {index_path} did not match (unclean shutdown?), the log was cut back to its last complete batch and the index was regenerated."
+                ),
+                Ok(false) => {}
+                Err(error) => {
+                    error!("Failed to check log {log_path} against index {index_path}. Error: {error}");
+                    return Err(IggyError::CannotReadFile);
+                }
+            }
+
             segment.load_from_disk().await.with_error_context(|error| {
                 format!("{COMPONENT} (error: {error}) - failed to load segment: {segment}",)
             })?;
